@@ -790,5 +790,35 @@ pub proof fn lemma_bf_collected<C: Ciphersuite>(m: Map<Identifier<C>, BindingFac
     }
 }
 
+
+// multiscalar multiplication  sum_i e_i * s_i  (the result assumed for scalar_mul.rs, DESIGN 4 C01 "Assumed / bounded")
+pub open spec fn spec_msm<C: Ciphersuite>(s: Seq<Scalar<C>>, e: Seq<Element<C>>) -> Element<C> decreases s.len()
+{ if s.len() == 0 || e.len() == 0 { e0::<C>() } else { eadd::<C>(spec_msm::<C>(s.drop_last(), e.drop_last()), emul::<C>(e.last(), s.last())) } }
+
+// RFC 9591 4.5 compute_group_commitment over the first n items: sum of hiding commitments, sum of binding commitments * rho
+pub open spec fn gc_hiding<C: Ciphersuite>(items: Seq<(Identifier<C>, crate::round1::SigningCommitments<C>)>, n: int) -> Element<C> decreases n
+{ if n <= 0 { e0::<C>() } else { eadd::<C>(gc_hiding::<C>(items, n - 1), items[n - 1].1.hiding.0.0) } }
+pub open spec fn gc_binding<C: Ciphersuite>(items: Seq<(Identifier<C>, crate::round1::SigningCommitments<C>)>, bf: Map<Identifier<C>, BindingFactor<C>>, n: int) -> Element<C> decreases n
+{ if n <= 0 { e0::<C>() } else { eadd::<C>(gc_binding::<C>(items, bf, n - 1), emul::<C>(items[n - 1].1.binding.0.0, bf[items[n - 1].0].0)) } }
+pub open spec fn spec_group_commitment<C: Ciphersuite>(items: Seq<(Identifier<C>, crate::round1::SigningCommitments<C>)>, bf: Map<Identifier<C>, BindingFactor<C>>) -> Element<C>
+{ eadd::<C>(gc_hiding::<C>(items, items.len() as int), gc_binding::<C>(items, bf, items.len() as int)) }
+
+
+// RFC 9591 5.2 sign:  z_i = d_i + e_i * rho_i + lambda_i * s_i * c
+pub open spec fn spec_sig_share<C: Ciphersuite>(d: Scalar<C>, e: Scalar<C>, rho: Scalar<C>, lambda: Scalar<C>, s: Scalar<C>, c: Scalar<C>) -> Scalar<C>
+{ sadd::<C>(sadd::<C>(d, smul::<C>(e, rho)), smul::<C>(smul::<C>(lambda, s), c)) }
+
+// RFC 9591 5.3 verify_signature_share (last step):  z_i G == R_i + (Y_i * c) * lambda_i
+pub open spec fn spec_sigshare_ok<C: Ciphersuite>(z: Scalar<C>, r_share: Element<C>, y: Element<C>, lambda: Scalar<C>, c: Scalar<C>) -> bool
+{ gmul::<C>(z) == eadd::<C>(r_share, emul::<C>(emul::<C>(y, c), lambda)) }
+
+// RFC 9591 4.6 compute_challenge:  c = H2(enc(R) || enc(PK) || msg)
+pub open spec fn spec_challenge<C: Ciphersuite>(r: Element<C>, vk: Element<C>, msg: Seq<u8>) -> Result<Scalar<C>, Error<C>>
+{ if r == e0::<C>() || vk == e0::<C>() { Err(Error::GroupError(GroupError::InvalidIdentityElement)) } else { Ok(C::spec_H2(enc_el::<C>(r) + enc_el::<C>(vk) + msg)) } }
+
+// RFC 9591 3.? prime-order Schnorr verification with cofactor:  h * (z G - c A - R) == 0
+pub open spec fn spec_verify_prehashed<C: Ciphersuite>(vk: Element<C>, c: Scalar<C>, sig: Signature<C>) -> Result<(), Error<C>>
+{ if emul::<C>(esub::<C>(esub::<C>(gmul::<C>(sig.z), emul::<C>(vk, c)), sig.R), GG::<C>::s_cofactor()) == e0::<C>() { Ok(()) } else { Err(Error::InvalidSignature) } }
+
 } // verus!
 }
